@@ -17,6 +17,7 @@ import FianoModel.Uefi.FaithfulCor
 import FianoModel.Uefi.ParseEval
 
 namespace Fiano.Uefi.Unfixed
+open FaithfulAux
 open Fiano Fiano.Uefi
 
 /-- `NewFirmwareVolume` as it was before the fix, over a given file walk `walk` (= `parseFiles h fuel`) -/
